@@ -77,3 +77,66 @@ fn c13_k2_mask() {
         }
     }
 }
+
+// @harness name=c13_k1_update_mods prop=C13 tier=quick timeout=1800
+// @encodes OverrideStates::update (modifier branch), mask_for_key
+// @bounds symbolic accumulated modifier mask (u8); the next active key is any of the 8 modifiers (symbolic); empty override table
+// @assumes none beyond the bounds
+// @spec scanning the active key list ACCUMULATES held modifiers: after a modifier key the mask is the old mask plus that modifier's bit (earlier modifiers are not forgotten), and nothing is scheduled for removal or addition
+#[kani::proof]
+#[kani::unwind(4)]
+fn c13_k1_update_mods() {
+    let ovs = Overrides { overrides_by_osc: HashMap::default() };
+    let m0: u8 = kani::any();
+    let mut st = OverrideStates { mods_pressed: m0, oscs_to_remove: Vec::new(), oscs_to_add: Vec::new() };
+    let k: u8 = kani::any();
+    kani::assume(k < 8);
+    let (osc, bit) = match k {
+        0 => (OsCode::KEY_LEFTCTRL, 1u8 << 0),
+        1 => (OsCode::KEY_LEFTSHIFT, 1 << 1),
+        2 => (OsCode::KEY_LEFTALT, 1 << 2),
+        3 => (OsCode::KEY_LEFTMETA, 1 << 3),
+        4 => (OsCode::KEY_RIGHTCTRL, 1 << 4),
+        5 => (OsCode::KEY_RIGHTSHIFT, 1 << 5),
+        6 => (OsCode::KEY_RIGHTALT, 1 << 6),
+        _ => (OsCode::KEY_RIGHTMETA, 1 << 7),
+    };
+    st.update(osc, &ovs);
+    assert!(st.mods_pressed == m0 | bit, "held modifiers accumulate");
+    assert!(st.oscs_to_add.is_empty() && st.oscs_to_remove.is_empty());
+    kani::cover!(m0 != 0 && m0 & bit == 0, "a second, different modifier");
+    core::mem::forget(st);
+    core::mem::forget(ovs);
+}
+
+// @harness name=c13_k1_update_keys prop=C13 tier=thorough timeout=3600
+// @encodes Overrides::new, Overrides::update_keys, Override::try_new, Override::get_mod_mask, add_override_keys, add_removed_keys
+// @bounds a concrete table of two overrides of the key a with NON-nested modifier sets: {lctl, lsft} a -> x and {lalt} a -> y; the set of currently held modifiers is a symbolic u8 mask
+// @assumes none beyond the bounds
+// @spec no override fires unless all its modifiers are held; if both match, the one with MORE modifiers (lctl+lsft) wins; the winner's inputs are scheduled for removal and its outputs for addition
+#[kani::proof]
+#[kani::unwind(6)]
+fn c13_k1_update_keys() {
+    let o1 = Override::try_new(&[OsCode::KEY_LEFTCTRL, OsCode::KEY_LEFTSHIFT, OsCode::KEY_A], &[OsCode::KEY_X]).unwrap();
+    let o2 = Override::try_new(&[OsCode::KEY_LEFTALT, OsCode::KEY_A], &[OsCode::KEY_Y]).unwrap();
+    let ovs = Overrides::new(&[o2, o1]);
+    let held: u8 = kani::any();
+    let mut add: Vec<OsCode> = Vec::new();
+    let mut rem: Vec<OsCode> = Vec::new();
+    ovs.update_keys(OsCode::KEY_A, held, &mut add, &mut rem);
+    let m1 = held & 0b011 == 0b011; // lctl | lsft
+    let m2 = held & 0b100 == 0b100; // lalt
+    if m1 {
+        assert!(add.len() == 1 && add[0] == OsCode::KEY_X, "the override with the most modifiers wins");
+        assert!(rem.len() == 3 && rem.contains(&OsCode::KEY_LEFTCTRL) && rem.contains(&OsCode::KEY_LEFTSHIFT) && rem.contains(&OsCode::KEY_A));
+    } else if m2 {
+        assert!(add.len() == 1 && add[0] == OsCode::KEY_Y);
+        assert!(rem.len() == 2 && rem.contains(&OsCode::KEY_LEFTALT) && rem.contains(&OsCode::KEY_A));
+    } else {
+        assert!(add.is_empty() && rem.is_empty(), "no match: the key list is left alone");
+    }
+    kani::cover!(m1 && m2, "both overrides match");
+    core::mem::forget(add);
+    core::mem::forget(rem);
+    core::mem::forget(ovs);
+}
